@@ -352,6 +352,8 @@ theorem plan_deleteObject (b k : Bytes) :
   simp only [plan]
   refine forall_withPath forall_nil fun p hp => ?_
   have h1 : ∀ acc, P e enc (.deleteObject b k) ⟨acc, .path p⟩ := fun _ => L_obj hr (bw (by simp [writeBuckets])) hp
+  refine forall_withPath (by touch_list <;> solve_by_elim) fun bp hbp => ?_
+  have h2 : P e enc (.deleteObject b k) ⟨.read, .path bp⟩ := L_bucket hr (bw (by simp [writeBuckets])) hbp
   touch_list <;> solve_by_elim
 
 theorem deleteObjectsPlan_allowed (op : Op) (b : Bytes) (hb : b ∈ writeBuckets op) (ks : List Bytes) :
